@@ -66,7 +66,7 @@ def gen_history(rng):
         elif r < 0.65:
             ops.append(["use_or_create", rng.choice(NAMES)])
         elif r < 0.85:
-            kind = rng.choice(["plain", "plain", "args", "layer", "twice", "args2"])
+            kind = rng.choice(["plain", "plain", "args", "layer", "twice", "args2", "reuse", "reuse"])
             op = ["cleanup", kind, cid]
             cid += 2 if kind == "args2" else 1
             if kind == "layer":
@@ -105,6 +105,7 @@ def _run_history(ops, raising, stats=None):
     val_n = [0]
     dig = hashlib.sha1()
     cleanup_funcs = {}
+    plain_ids = set()
 
     class CleanupBoom(Exception):
         pass
@@ -255,6 +256,7 @@ def _run_history(ops, raising, stats=None):
                     if kind == "plain":
                         context.add_cleanup(f)
                         model.stack[-1]["cleanups"].append(c)
+                        plain_ids.add(c)
                     elif kind == "twice":
                         context.add_cleanup(f)
                         context.add_cleanup(f)      # the very same function: one registration
@@ -262,6 +264,19 @@ def _run_history(ops, raising, stats=None):
                     elif kind == "args":
                         context.add_cleanup(f, c, key=c)
                         model.stack[-1]["cleanups"].append(c)
+                    elif kind == "reuse":
+                        # the SAME plain function that is already registered in an OUTER live scope is
+                        # registered again here: two registrations, each runs when its own scope ends
+                        outer = [cc for fr in model.stack[:-1] for cc in fr["cleanups"]
+                                 if cc in cleanup_funcs and cc in plain_ids and cc not in model.stack[-1]["cleanups"]]
+                        if outer:
+                            cc = outer[-1]
+                            context.add_cleanup(cleanup_funcs[cc])
+                            model.stack[-1]["cleanups"].append(cc)
+                        else:
+                            context.add_cleanup(f)
+                            model.stack[-1]["cleanups"].append(c)
+                            plain_ids.add(c)
                     elif kind == "args2":
                         # ONE function registered twice with different arguments: two cleanups
                         def shared(x):
